@@ -240,3 +240,76 @@ func image(s db.KeyValueStore) *memory.Database {
 	}
 	return out
 }
+
+// overlayDB reads through to a base store and keeps writes to itself: a throw-away view used to
+// run code that may write (lazy filter initialisation persists a window when a fill crosses a
+// boundary) without copying or touching the base.
+type overlayDB struct {
+	db.KeyValueStore // base: only its read methods are reachable
+	mu               sync.Mutex
+	put              map[string][]byte
+	del              map[string]bool
+}
+
+func newOverlay(base db.KeyValueStore) *overlayDB {
+	return &overlayDB{KeyValueStore: base, put: map[string][]byte{}, del: map[string]bool{}}
+}
+
+func (o *overlayDB) Get(key []byte, cb func([]byte) error) error {
+	o.mu.Lock()
+	if v, ok := o.put[string(key)]; ok {
+		o.mu.Unlock()
+		return cb(v)
+	}
+	if o.del[string(key)] {
+		o.mu.Unlock()
+		return db.ErrKeyNotFound
+	}
+	o.mu.Unlock()
+	return o.KeyValueStore.Get(key, cb)
+}
+
+func (o *overlayDB) Has(key []byte) (bool, error) {
+	err := o.Get(key, func([]byte) error { return nil })
+	if errors.Is(err, db.ErrKeyNotFound) {
+		return false, nil
+	}
+	return err == nil, err
+}
+
+func (o *overlayDB) Put(key, value []byte) error {
+	o.mu.Lock()
+	o.put[string(key)] = bytes.Clone(value)
+	delete(o.del, string(key))
+	o.mu.Unlock()
+	return nil
+}
+
+func (o *overlayDB) Delete(key []byte) error {
+	o.mu.Lock()
+	delete(o.put, string(key))
+	o.del[string(key)] = true
+	o.mu.Unlock()
+	return nil
+}
+
+// Snapshot of the overlay = the overlay itself (nothing else writes during the call).
+func (o *overlayDB) NewSnapshot() db.Snapshot { return overlaySnap{o} }
+
+type overlaySnap struct{ *overlayDB }
+
+func (overlaySnap) Close() error { return nil }
+
+func (o *overlayDB) DeleteRange([]byte, []byte) error { panic("overlayDB: DeleteRange") }
+func (o *overlayDB) NewBatch() db.Batch               { panic("overlayDB: NewBatch") }
+func (o *overlayDB) NewBatchWithSize(int) db.Batch    { panic("overlayDB: NewBatchWithSize") }
+func (o *overlayDB) NewIndexedBatch() db.IndexedBatch { panic("overlayDB: NewIndexedBatch") }
+func (o *overlayDB) NewIndexedBatchWithSize(int) db.IndexedBatch {
+	panic("overlayDB: NewIndexedBatchWithSize")
+}
+func (o *overlayDB) Update(func(db.IndexedBatch) error) error { panic("overlayDB: Update") }
+func (o *overlayDB) Write(func(db.Batch) error) error         { panic("overlayDB: Write") }
+func (o *overlayDB) Close() error                             { return nil }
+func (o *overlayDB) WithListener(db.EventListener) db.KeyValueStore {
+	return o
+}
